@@ -650,3 +650,86 @@ ARRAY_SCOPE = {
 def arrays_for_property(F, pid, rule_id):
 	res, floor = ARRAY_SCOPE[pid]
 	return array_index_rule(F, rule_id, res, floor)
+
+# ----------------------------------------------------------------------------- short-circuiting iterator adaptors
+# "for every HTLC / every path / every output" obligations are written as iterator chains; turning filter_map into find_map, filter into
+# find, or adding take(1) makes the chain stop at the first match.  Functions known when the table (rules/provenance_shortcircuit.json) was
+# reviewed must not GAIN calls of a short-circuiting adaptor (find, find_map, position, take, take_while, nth, ...); new functions are not
+# judged, a function losing one is fine.
+_SC_ADAPTORS = {'find', 'find_map', 'position', 'rposition', 'take_while', 'skip_while', 'map_while', 'take', 'nth', 'last', 'step_by', 'try_for_each', 'try_fold'}
+_SCC = {}
+_SC_TABLE = None
+
+def sc_table():
+	global _SC_TABLE
+	if _SC_TABLE is None:
+		_SC_TABLE = json.load(open(os.path.join(os.path.dirname(os.path.abspath(__file__)), 'provenance_shortcircuit.json')))
+	return _SC_TABLE
+
+def sc_census(F):
+	import re
+	if F.dir in _SCC:
+		return _SCC[F.dir]
+	cnt = collections.Counter()
+	where = {}
+	known = collections.defaultdict(set)
+	for n, r in F.fns.items():
+		if not n.startswith('lightning') or 'ser_macros' in r['file']:
+			continue
+		fl = r['file'].split('src/')[-1] if 'src/' in r['file'] else r['file']
+		crate = r['file'].split('/')[0]
+		fl = crate + ':' + fl
+		tail = root_fn(n).rsplit('::', 1)[-1]
+		known[fl].add(tail)
+		try:
+			fu = F.func(n)
+		except AnchorMissing:
+			continue
+		for b, ci in fu.calls():
+			m = re.search(r'Iterator::(\w+)$', norm(ci.get('t') or ci.get('f') or ''))
+			if m and m.group(1) in _SC_ADAPTORS:
+				k = (fl, tail, m.group(1))
+				cnt[k] += 1
+				where.setdefault(k, (n, fu.line_of(b)))
+	_SCC[F.dir] = (cnt, where, known)
+	return _SCC[F.dir]
+
+def sc_rule(F, rule_id, file_res, floor=0):
+	import re
+	cnt, where, known = sc_census(F)
+	tab = sc_table()
+	tcount = {tuple(x[:3]): x[3] for x in tab['counts']}
+	tknown = {k: set(v) for k, v in tab['known'].items()}
+	out = []
+	n = 0
+	for k, c in sorted(cnt.items()):
+		fl, tail, ad = k
+		if not any(re.search(p, fl.split(':', 1)[1]) for p in file_res):
+			continue
+		n += c
+		if tail not in tknown.get(fl, ()):
+			continue   # a function the table never saw
+		if c > tcount.get(k, 0):
+			fn, line = where[k]
+			out.append(Result(rule_id, False, 'short-circuit:%s:%s' % (tail, ad), '%s now calls Iterator::%s %d time(s) (reviewed: %d): an iteration that used to visit every element may stop at the first match' % (tail, ad, c, tcount.get(k, 0)), 1, where=F.where(fn, line)))
+	if n < floor:
+		return [Result(rule_id, False, 'anchor:short-circuit', 'only %d short-circuiting adaptor calls found in %s (expected >= %d)' % (n, file_res, floor))]
+	if not out:
+		out.append(Result(rule_id, True, 'ok:short-circuit', '%d calls of short-circuiting iterator adaptors in %s: no reviewed function gained one' % (n, '|'.join(file_res)), max(n, 1)))
+	return out
+
+SC_SCOPE = {
+	'C01': ([r'ln/channel\.rs$', r'ln/chan_utils\.rs$', r'ln/interactivetxs\.rs$'], 5),
+	'C02': ([r'ln/channelmanager\.rs$'], 1),
+	'C03': ([r'ln/outbound_payment\.rs$', r'ln/channelmanager\.rs$'], 1),
+	'C06': ([r'chain/channelmonitor\.rs$', r'chain/onchaintx\.rs$', r'chain/package\.rs$'], 20),
+	'C07': ([r'chain/channelmonitor\.rs$', r'chain/onchaintx\.rs$', r'chain/package\.rs$'], 20),
+	'C11': ([r'chain/channelmonitor\.rs$', r'chain/onchaintx\.rs$'], 20),
+	'C16': ([r'routing/router\.rs$', r'routing/scoring\.rs$'], 2),
+	'C17': ([r'routing/gossip\.rs$', r'util/indexed_map\.rs$'], 1),
+	'C18': ([r'offers/'], 5),
+}
+
+def sc_for_property(F, pid, rule_id):
+	res, floor = SC_SCOPE[pid]
+	return sc_rule(F, rule_id, res, floor)
